@@ -128,6 +128,33 @@ theorem wrap_effect_order (mw : S_mainmw_Middleware) (fc : S_mainmw_filteringCon
      obtain ⟨rfl, rfl⟩ := h
      simp [cnt, names, before] <;> decide)
 
+/-! ## Round 6: `filterRequest` (the request stage that produces the verdict `setFilteredResponse` consumes) -/
+
+/-- `Middleware.filterRequest`, every run with a filtering context: the pooled filter request is taken
+once and handed back once, as the LAST effect (the `defer`); the filter is consulted exactly once,
+between the two; its result is stored in the context whatever the error was (an error of the filter is
+collected, never turned into a missing result); and the rewritten request is stored exactly when the
+result is a `*filter.ResultModifiedRequest`, before the result itself. -/
+theorem filterRequest_effects (mw : S_mainmw_Middleware) (fc : S_mainmw_filteringContext) (ri : Option S_agd_RequestInfo)
+    (u : Unit) (fr : AbsPtr) (res : AbsPtr × Option String) (mod : AbsPtr × Bool) (since : Int) :
+    mw_filterRequest mw (some fc) ri u fr res mod since =
+      some ([("Now", []), ("reqInfoToFltReq", ["_", "_"]), ("FilterRequest", ["_", "_"])] ++
+        (if mod.2 then [("set fctx.modifiedRequest", ["mod.Msg"])] else []) ++
+        [("set fctx.requestResult", ["reqRes"]), ("Since", ["_"]), ("putFltReq", ["_"])]) := by
+  cases h1 : res.2 <;> cases h2 : mod.2 <;> simp [mw_filterRequest, h1, h2]
+
+/-- A nil filtering context is a nil dereference (the only way `filterRequest` can panic). -/
+theorem filterRequest_nil_ctx (mw : S_mainmw_Middleware) (ri : Option S_agd_RequestInfo)
+    (u : Unit) (fr : AbsPtr) (res : AbsPtr × Option String) (mod : AbsPtr × Bool) (since : Int) :
+    mw_filterRequest mw none ri u fr res mod since = none := by
+  cases h1 : res.2 <;> cases h2 : mod.2 <;> simp [mw_filterRequest, h1, h2]
+
+/-- The filter's error does not change what is done with its result. -/
+theorem filterRequest_error_independent (mw : S_mainmw_Middleware) (fctx : Option S_mainmw_filteringContext)
+    (ri : Option S_agd_RequestInfo) (u : Unit) (fr r : AbsPtr) (e e' : Option String) (mod : AbsPtr × Bool) (since : Int) :
+    mw_filterRequest mw fctx ri u fr (r, e) mod since = mw_filterRequest mw fctx ri u fr (r, e') mod since := by
+  cases fctx <;> cases e <;> cases e' <;> cases h2 : mod.2 <;> simp [mw_filterRequest, h2]
+
 end Agd.Tie.TrC02
 
 #print axioms Agd.Tie.TrC02.translation_complete
@@ -137,3 +164,6 @@ end Agd.Tie.TrC02
 #print axioms Agd.Tie.TrC02.allowed_and_rewritten
 #print axioms Agd.Tie.TrC02.response_stage
 #print axioms Agd.Tie.TrC02.filter_choice
+#print axioms Agd.Tie.TrC02.filterRequest_effects
+#print axioms Agd.Tie.TrC02.filterRequest_nil_ctx
+#print axioms Agd.Tie.TrC02.filterRequest_error_independent
